@@ -1,10 +1,11 @@
 (* C18 [T2]: all fuels, and Canonicalize itself.  Q_ptr / Q_fill / Q_list hold for every fuel;
-   canon_m_cdom: on the proved domain [cdom], whenever Canonicalize returns bytes they are
-   exactly the specification's canonical form of the value the struct denotes. *)
+   canon_m_all: whenever Canonicalize returns bytes they are exactly the specification's canonical
+   form of the value the struct denotes -- for every value (a value containing a capability never
+   makes Canonicalize return bytes: canon_m_cap_error). *)
 From CV Require Import Value.ValueEq Value.ValueEqProofs Value.EqualM Value.Den Value.DenFacts Value.DenLists
                        Value.CanonSpec Value.CanonProofs Value.CanonProofs3 Value.CanonM Value.CanonMStruct
                        Value.CanonMWords Value.CanonMData Value.CanonMHeap Value.CanonMLoop Value.CanonSafe Value.EqualProofs
-                       Value.CanonMProofs Value.CanonMInd Value.CanonMListP Value.CanonMListR Value.VDec Value.VDecProofs.
+                       Value.CanonMProofs Value.CanonMInd Value.CanonMListP Value.CanonMListR Value.CanonMListC Value.CanonMListB Value.CanonProofs2 Value.VDec Value.VDecProofs.
 From CV Require Import Core.ReaderFacts Core.SafetyProofs Core.BuilderFacts Core.ArithFacts Core.CopySafe.
 From Coq Require Import ZifyBool ZifyNat.
 Ltac Zify.zify_post_hook ::= Z.div_mod_to_equations.
@@ -17,15 +18,17 @@ Context (Hstrict : cfg_strict c = true) (Hfx : all_cfixed fx) (Hm : msg_ok m).
 (* ------------------------------------------------------------------ all fuels *)
 Lemma list_step f : Q_ptr c fx m f -> Q_fill c fx m f -> Q_list c fx m (S f).
 Proof.
-  intros HP HF data cap rl p v w' cp Hi Hwf Hv Hk D Hsd H.
-  destruct v as [| | |k es|]; try discriminate Hsd; try (exfalso; inversion D; subst; congruence).
-  destruct k; try discriminate Hsd.
-  - eapply list_prim_case; try eassumption; discriminate.
-  - eapply list_prim_case; try eassumption; discriminate.
-  - eapply list_prim_case; try eassumption; discriminate.
-  - eapply list_prim_case; try eassumption; discriminate.
-  - eapply list_prim_case; try eassumption; discriminate.
-  - eapply list_ptr_case; eassumption.
+  intros HP HF data cap rl p v w' cp Hi Hwf Hv Hk Hcal D H.
+  destruct v as [| | |k es|]; try (exfalso; inversion D; subst; congruence).
+  - destruct k.
+    + eapply list_prim_case; try eassumption; discriminate.
+    + eapply list_prim_case; try eassumption; discriminate.
+    + eapply list_prim_case; try eassumption; discriminate.
+    + eapply list_prim_case; try eassumption; discriminate.
+    + eapply list_prim_case; try eassumption; discriminate.
+    + eapply list_ptr_case; eassumption.
+    + eapply list_comp_case; eassumption.
+  - eapply list_bits_case; eassumption.
 Qed.
 
 Theorem Q_all : forall f, Q_ptr c fx m f /\ Q_fill c fx m f /\ Q_list c fx m f.
@@ -33,7 +36,7 @@ Proof.
   induction f as [|f (IHp & IHf & IHl)].
   - split; [|split].
     + intros data cap rl p v w' cp _ _ _ _ _ H. discriminate H.
-    + intros data cap rl dst s ws vs A dn pn w' _ _ _ _ _ _ _ _ _ _ _ _ _ _ _ H. discriminate H.
+    + intros data cap rl dst s ws vs A dn pn w' _ _ _ _ _ _ _ _ _ _ _ _ _ _ H. discriminate H.
     + intros data cap rl p v w' cp _ _ _ _ _ _ H. discriminate H.
   - split; [apply ptr_step; assumption|]. split; [apply fill_step; assumption| apply list_step; assumption].
 Qed.
@@ -85,12 +88,12 @@ Proof.
   intros Hh. unfold put_word. cbn [Z.to_nat firstn app Nat.add]. rewrite <- Hh, skipn_app, Nat.sub_diag, skipn_all. reflexivity.
 Qed.
 
-Theorem canon_m_cdom : forall fuel rl s v bs rl',
+Theorem canon_m_all : forall fuel rl s v bs rl',
   wf_ptr m s -> (p_valid s = true -> p_kind s = KStruct /\ DataSize (p_size s) mod 8 = 0) ->
-  den true m 0 [] s v -> cdom v = true ->
+  den true m 0 [] s v ->
   canonicalize c fx fuel m rl s = (KOk bs, rl') -> canon v = Some bs.
 Proof.
-  intros fuel rl s v bs rl' Hwf Hks D Hsd H.
+  intros fuel rl s v bs rl' Hwf Hks D H.
   destruct (p_valid s) eqn:Hv.
   2:{ destruct (canon_m_null_partial fuel c fx m rl s Hv) as [C1 C2]. rewrite C1 in H. inversion H; subst.
       pose proof (den_null_iff _ _ _ _ _ _ D) as Hn. rewrite Hv in Hn. destruct v; try discriminate. exact C2. }
@@ -160,7 +163,7 @@ Proof.
   assert (Hdst : dst_at ss 8 k j) by (unfold dst_at, ss; cbn; repeat split; reflexivity).
   assert (T3 : k <= zlen ws) by (unfold k, zlen in *; lia). assert (T4 : j <= zlen vs) by (unfold j, zlen in *; lia).
   destruct (HF _ cap1 rl ss s ws vs 8 k j w2 Hinv1 Hdst ltac:(lia) eq_refl ltac:(lia) Hj0 ltac:(lia)
-               Hv Hk Hwf Hal D Hsd T3 T4 Ef)
+               Hv Hk Hwf Hal D T3 T4 Ef)
     as (pwords & kids & cap2 & rl2 & Lp & -> & Hinv2 & Hcells).
   cbn [w_dst dstw]. change (get_seg (seg0 ?x cap2) 0) with (mkBS x cap2).
   set (dws := firstn (Z.to_nat k) ws) in *.
@@ -191,86 +194,22 @@ Qed.
 End Top.
 
 (* ------------------------------------------------------------------ closed statements *)
-(* [T2] on the proved domain: whenever Canonicalize (all repairs applied, strict reader, well-formed
-   source struct) returns bytes for a value in [cdom], they are the specification's canonical form.
-   Errors are not constrained (limits; a capability makes Canonicalize fail and canon = None);
-   the absence of panics is CanonSafe.canonicalize_safe. *)
-Theorem canon_m_correct_cdom : forall fuel c fx m rl s v bs rl',
+(* [T2]: whenever Canonicalize (all repairs applied, strict reader, well-formed source struct)
+   returns bytes, they are the specification's canonical form of the value the struct denotes.
+   Every value: structs, void / bit / primitive / pointer / struct lists, any depth and layout. *)
+Theorem canon_m_correct : forall fuel c fx m rl s v bs rl',
   all_cfixed fx -> cfg_strict c = true -> msg_ok m -> wf_ptr m s ->
   (p_valid s = true -> p_kind s = KStruct /\ DataSize (p_size s) mod 8 = 0) ->
-  den true m 0 [] s v -> cdom v = true ->
+  den true m 0 [] s v ->
   canonicalize c fx fuel m rl s = (KOk bs, rl') -> canon v = Some bs.
-Proof. intros fuel c fx m rl s v bs rl' Hf Hs M W K D Hd C. exact (canon_m_cdom c fx m Hs Hf M fuel rl s v bs rl' W K D Hd C). Qed.
+Proof. intros fuel c fx m rl s v bs rl' Hf Hs M W K D C. exact (canon_m_all c fx m Hs Hf M fuel rl s v bs rl' W K D C). Qed.
 
-(* the three consequences, no longer conditional (on the proved domain) *)
-Theorem canon_m_layout_independent : forall fuel c fx m1 rl1 s1 v1 m2 rl2 s2 v2 bs1 bs2 r1 r2,
-  all_cfixed fx -> cfg_strict c = true -> msg_ok m1 -> msg_ok m2 -> wf_ptr m1 s1 -> wf_ptr m2 s2 ->
-  (p_valid s1 = true -> p_kind s1 = KStruct /\ DataSize (p_size s1) mod 8 = 0) ->
-  (p_valid s2 = true -> p_kind s2 = KStruct /\ DataSize (p_size s2) mod 8 = 0) ->
-  den true m1 0 [] s1 v1 -> den true m2 0 [] s2 v2 -> cdom v1 = true -> cdom v2 = true ->
-  nocap v1 = true -> value_eqs v1 v2 = true ->
-  canonicalize c fx fuel m1 rl1 s1 = (KOk bs1, r1) -> canonicalize c fx fuel m2 rl2 s2 = (KOk bs2, r2) ->
-  bs1 = bs2.
-Proof.
-  intros fuel c fx m1 rl1 s1 v1 m2 rl2 s2 v2 bs1 bs2 r1 r2 Hf Hs M1 M2 W1 W2 K1 K2 D1 D2 Hd1 Hd2 Hc He C1 C2.
-  pose proof (canon_m_correct_cdom fuel c fx m1 rl1 s1 v1 bs1 r1 Hf Hs M1 W1 K1 D1 Hd1 C1) as E1.
-  pose proof (canon_m_correct_cdom fuel c fx m2 rl2 s2 v2 bs2 r2 Hf Hs M2 W2 K2 D2 Hd2 C2) as E2.
-  rewrite (canon_unique v1 v2 Hc He) in E1. congruence.
-Qed.
-
-Theorem canon_m_value_preserved : forall fuel c fx m rl s v bs r,
-  all_cfixed fx -> cfg_strict c = true -> msg_ok m -> wf_ptr m s ->
-  (p_valid s = true -> p_kind s = KStruct /\ DataSize (p_size s) mod 8 = 0) ->
-  den true m 0 [] s v -> good v -> cdom v = true ->
-  canonicalize c fx fuel m rl s = (KOk bs, r) ->
-  exists v', cdecode (S (vdepth (norm v))) bs = Some v' /\ value_eqs v' v = true /\ value_eq v' v = true.
-Proof.
-  intros fuel c fx m rl s v bs r Hf Hs M W K D G Hd C.
-  pose proof (canon_m_correct_cdom fuel c fx m rl s v bs r Hf Hs M W K D Hd C) as E.
-  apply canon_decodes_equal; assumption.
-Qed.
-
-Theorem canon_m_idempotent : forall fuel c fx m rl s v bs r m' rl' s' v' bs' r',
-  all_cfixed fx -> cfg_strict c = true -> msg_ok m -> msg_ok m' -> wf_ptr m s -> wf_ptr m' s' ->
-  (p_valid s = true -> p_kind s = KStruct /\ DataSize (p_size s) mod 8 = 0) ->
-  (p_valid s' = true -> p_kind s' = KStruct /\ DataSize (p_size s') mod 8 = 0) ->
-  den true m 0 [] s v -> nocap v = true -> cdom v = true ->
-  canonicalize c fx fuel m rl s = (KOk bs, r) ->
-  den true m' 0 [] s' v' -> cdom v' = true -> value_eqs v v' = true ->      (* m' = the output, read back *)
-  canonicalize c fx fuel m' rl' s' = (KOk bs', r') ->
-  bs' = bs.
-Proof.
-  intros fuel c fx m rl s v bs r m' rl' s' v' bs' r' Hf Hs M M' W W' K K' D Hc Hd C D' Hd' He C'.
-  symmetry. eapply (canon_m_layout_independent fuel c fx m rl s v m' rl' s' v'); eassumption.
-Qed.
-
-(* ------------------------------------------------------------------ non-vacuity *)
-(* a root struct (data word 7) with a byte list "abc" and a pointer list holding one struct:
-   every hypothesis of canon_m_correct_cdom holds, Canonicalize returns bytes, and they are
-   canon of the denoted value (computed independently) *)
-Definition msg_ex : segs :=
-  [wbytes [struct_word 0 1 2; 7; list_word 1 2 3; list_word 1 6 1; 6513249; struct_word 0 1 0; 5]].
-Definition root_ex : Ptr :=
-  match fst (readPtr true msg_ex 1000000 0 (nth 0 msg_ex []) 0 64) with Ok q => q | _ => nullPtr end.
-
-Example canon_m_cdom_nonvacuous :
-  all_cfixed repaired /\ cfg_strict cfg0 = true /\ p_valid root_ex = true /\ p_kind root_ex = KStruct /\
-  DataSize (p_size root_ex) mod 8 = 0 /\
-  exists v bs rl', den true msg_ex 0 [] root_ex v /\ cdom v = true /\ v <> VNull /\
-                   canonicalize cfg0 repaired 20 msg_ex 1000000 root_ex = (KOk bs, rl') /\ canon v = Some bs.
-Proof.
-  split; [repeat split; reflexivity|]. split; [reflexivity|]. split; [reflexivity|]. split; [reflexivity|]. split; [reflexivity|].
-  eexists. eexists. eexists.
-  split; [apply (vdec_den 10 1000000); vm_compute; reflexivity|].
-  split; [vm_compute; reflexivity|]. split; [discriminate|]. split; vm_compute; reflexivity.
-Qed.
-
-(* canon_m_correct_statement restricted to cdom (and a non-negative traversal budget), all outcomes:
+(* all outcomes = CanonMProofs.canon_m_correct_statement (with a non-negative traversal budget):
    bytes are the canonical form; no panic (CanonSafe.canonicalize_safe); errors unconstrained *)
-Theorem canon_m_correct_cdom_full : forall fuel c fx m rl s v,
+Theorem canon_m_correct_full : forall fuel c fx m rl s v,
   all_cfixed fx -> cfg_strict c = true -> msg_ok m -> wf_ptr m s ->
   (p_valid s = true -> p_kind s = KStruct /\ DataSize (p_size s) mod 8 = 0) ->
-  den true m 0 [] s v -> cdom v = true -> 0 <= rl ->
+  den true m 0 [] s v -> 0 <= rl ->
   forall r rl', canonicalize c fx fuel m rl s = (r, rl') ->
   match r with
   | KOk bs => canon v = Some bs
@@ -279,8 +218,111 @@ Theorem canon_m_correct_cdom_full : forall fuel c fx m rl s v,
   | KFuel => True
   end.
 Proof.
-  intros fuel c fx m rl s v Hf Hs M W K D Hd Hrl r rl' C. destruct r as [bs| | |]; try exact I.
-  - eapply canon_m_correct_cdom; eassumption.
+  intros fuel c fx m rl s v Hf Hs M W K D Hrl r rl' C. destruct r as [bs| | |]; try exact I.
+  - eapply canon_m_correct; eassumption.
   - destruct (canonicalize_safe c fx fuel m rl s Hs (proj1 Hf) M (conj W (fun Hv => proj1 (K Hv))) Hrl) as [NP _].
     rewrite C in NP. apply NP. reflexivity.
+Qed.
+
+(* capabilities: a value containing a capability has no canonical form (canon_cap_none) and
+   Canonicalize never returns bytes for it -- the outcome is the error (or fuel exhaustion, the
+   excluded outcome), never bytes and never a panic.  Conversely bytes are returned only for
+   capability-free values. *)
+Theorem canon_m_cap_error : forall fuel c fx m rl s v,
+  all_cfixed fx -> cfg_strict c = true -> msg_ok m -> wf_ptr m s ->
+  (p_valid s = true -> p_kind s = KStruct /\ DataSize (p_size s) mod 8 = 0) ->
+  den true m 0 [] s v -> 0 <= rl -> has_cap (norm v) = true ->
+  forall r rl', canonicalize c fx fuel m rl s = (r, rl') -> r = KErr \/ r = KFuel.
+Proof.
+  intros fuel c fx m rl s v Hf Hs M W K D Hrl Hc r rl' C.
+  pose proof (canon_m_correct_full fuel c fx m rl s v Hf Hs M W K D Hrl r rl' C) as T.
+  destruct r as [bs| | |]; [|left; reflexivity|destruct T|right; reflexivity].
+  rewrite (canon_cap_none v Hc) in T. discriminate T.
+Qed.
+
+Theorem canon_m_bytes_nocap : forall fuel c fx m rl s v bs rl',
+  all_cfixed fx -> cfg_strict c = true -> msg_ok m -> wf_ptr m s ->
+  (p_valid s = true -> p_kind s = KStruct /\ DataSize (p_size s) mod 8 = 0) ->
+  den true m 0 [] s v ->
+  canonicalize c fx fuel m rl s = (KOk bs, rl') -> has_cap (norm v) = false.
+Proof.
+  intros fuel c fx m rl s v bs rl' Hf Hs M W K D C.
+  pose proof (canon_m_correct fuel c fx m rl s v bs rl' Hf Hs M W K D C) as E.
+  destruct (has_cap (norm v)) eqn:Hc; [|reflexivity]. rewrite (canon_cap_none v Hc) in E. discriminate E.
+Qed.
+
+(* the three claims about Canonicalize itself, unconditional *)
+Theorem canon_m_layout_independent : forall fuel c fx m1 rl1 s1 v1 m2 rl2 s2 v2 bs1 bs2 r1 r2,
+  all_cfixed fx -> cfg_strict c = true -> msg_ok m1 -> msg_ok m2 -> wf_ptr m1 s1 -> wf_ptr m2 s2 ->
+  (p_valid s1 = true -> p_kind s1 = KStruct /\ DataSize (p_size s1) mod 8 = 0) ->
+  (p_valid s2 = true -> p_kind s2 = KStruct /\ DataSize (p_size s2) mod 8 = 0) ->
+  den true m1 0 [] s1 v1 -> den true m2 0 [] s2 v2 ->
+  nocap v1 = true -> value_eqs v1 v2 = true ->
+  canonicalize c fx fuel m1 rl1 s1 = (KOk bs1, r1) -> canonicalize c fx fuel m2 rl2 s2 = (KOk bs2, r2) ->
+  bs1 = bs2.
+Proof.
+  intros fuel c fx m1 rl1 s1 v1 m2 rl2 s2 v2 bs1 bs2 r1 r2 Hf Hs M1 M2 W1 W2 K1 K2 D1 D2 Hc He C1 C2.
+  pose proof (canon_m_correct fuel c fx m1 rl1 s1 v1 bs1 r1 Hf Hs M1 W1 K1 D1 C1) as E1.
+  pose proof (canon_m_correct fuel c fx m2 rl2 s2 v2 bs2 r2 Hf Hs M2 W2 K2 D2 C2) as E2.
+  rewrite (canon_unique v1 v2 Hc He) in E1. congruence.
+Qed.
+
+Theorem canon_m_value_preserved : forall fuel c fx m rl s v bs r,
+  all_cfixed fx -> cfg_strict c = true -> msg_ok m -> wf_ptr m s ->
+  (p_valid s = true -> p_kind s = KStruct /\ DataSize (p_size s) mod 8 = 0) ->
+  den true m 0 [] s v -> good v ->
+  canonicalize c fx fuel m rl s = (KOk bs, r) ->
+  exists v', cdecode (S (vdepth (norm v))) bs = Some v' /\ value_eqs v' v = true /\ value_eq v' v = true.
+Proof.
+  intros fuel c fx m rl s v bs r Hf Hs M W K D G C.
+  pose proof (canon_m_correct fuel c fx m rl s v bs r Hf Hs M W K D C) as E.
+  apply canon_decodes_equal; assumption.
+Qed.
+
+Theorem canon_m_idempotent : forall fuel c fx m rl s v bs r m' rl' s' v' bs' r',
+  all_cfixed fx -> cfg_strict c = true -> msg_ok m -> msg_ok m' -> wf_ptr m s -> wf_ptr m' s' ->
+  (p_valid s = true -> p_kind s = KStruct /\ DataSize (p_size s) mod 8 = 0) ->
+  (p_valid s' = true -> p_kind s' = KStruct /\ DataSize (p_size s') mod 8 = 0) ->
+  den true m 0 [] s v -> nocap v = true ->
+  canonicalize c fx fuel m rl s = (KOk bs, r) ->
+  den true m' 0 [] s' v' -> value_eqs v v' = true ->      (* m' = the output, read back *)
+  canonicalize c fx fuel m' rl' s' = (KOk bs', r') ->
+  bs' = bs.
+Proof.
+  intros fuel c fx m rl s v bs r m' rl' s' v' bs' r' Hf Hs M M' W W' K K' D Hc C D' He C'.
+  symmetry. eapply (canon_m_layout_independent fuel c fx m rl s v m' rl' s' v'); eassumption.
+Qed.
+
+(* ------------------------------------------------------------------ non-vacuity *)
+(* a root struct (data word 7) with a byte list "abc", a pointer list holding one struct, a bit
+   list (3 bits, dirty padding 0xfd) and a struct list of two elements (7, 0) with one data word:
+   every hypothesis of canon_m_correct holds, Canonicalize returns bytes, and they are canon of
+   the denoted value (computed independently) *)
+Definition msg_ex : segs :=
+  [wbytes [struct_word 0 1 4; 7; list_word 3 2 3; list_word 3 6 1; list_word 4 1 3; list_word 4 7 2;
+           6513249; struct_word 0 1 0; 5; 253; struct_word 2 1 0; 7; 0]].
+Definition root_ex : Ptr :=
+  match fst (readPtr true msg_ex 1000000 0 (nth 0 msg_ex []) 0 64) with Ok q => q | _ => nullPtr end.
+
+Example canon_m_nonvacuous :
+  all_cfixed repaired /\ cfg_strict cfg0 = true /\ p_valid root_ex = true /\ p_kind root_ex = KStruct /\
+  DataSize (p_size root_ex) mod 8 = 0 /\
+  exists v bs rl', den true msg_ex 0 [] root_ex v /\ v <> VNull /\
+                   canonicalize cfg0 repaired 20 msg_ex 1000000 root_ex = (KOk bs, rl') /\ canon v = Some bs.
+Proof.
+  split; [repeat split; reflexivity|]. split; [reflexivity|]. split; [reflexivity|]. split; [reflexivity|]. split; [reflexivity|].
+  eexists. eexists. eexists.
+  split; [apply (vdec_den 10 1000000); vm_compute; reflexivity|].
+  split; [discriminate|]. split; vm_compute; reflexivity.
+Qed.
+
+(* a capability in the value: the error outcome *)
+Definition msg_cap : segs := [wbytes [struct_word 0 0 1; 3]].
+Definition root_cap : Ptr :=
+  match fst (readPtr true msg_cap 1000000 0 (nth 0 msg_cap []) 0 64) with Ok q => q | _ => nullPtr end.
+Example canon_m_cap_nonvacuous :
+  exists v, den true msg_cap 0 [] root_cap v /\ has_cap (norm v) = true /\
+            fst (canonicalize cfg0 repaired 20 msg_cap 1000000 root_cap) = KErr.
+Proof.
+  eexists. split; [apply (vdec_den 10 1000000); vm_compute; reflexivity|]. split; vm_compute; reflexivity.
 Qed.
